@@ -1,7 +1,478 @@
-//! C07 — not implemented yet.
-use vcore::Ctx;
+//! C07 — language-server diagnostics depend only on the current buffers.
+//!
+//! A generated project (packages + modules that use them and instantiate each
+//! other) is written to disk; a generated history of editor steps (didOpen /
+//! didChange with full text / save+didSave / didClose / rename / delete /
+//! create) is played against ONE long-lived `veryl-ls`.  At chosen steps the
+//! oracle starts a FRESH server on a copy of the disk state, opens the same
+//! documents with their current (possibly unsaved) text, waits for background
+//! analysis, has every open document analysed once more (a didChange with
+//! the unchanged text, so that no diagnostic is held back by the server's
+//! "background not done yet" filter) and records what it publishes.  The
+//! long-lived server must publish the same multiset of
+//! (range, severity, code, message) for
+//!   * the document the checked step touched — as published for that step, and
+//!   * every open document once it is analysed again (same no-op didChange).
+//! See lsp.rs for the protocol and the definition of quiescence.
 
-pub fn run(_ctx: &Ctx) {
-    println!("INCONCLUSIVE property=C07: check not implemented");
+use crate::hist::{Hist, Step, World, generate};
+use crate::lsp::{Ls, LsErr};
+use serde_json::{Value, json};
+use std::collections::BTreeMap;
+use std::path::{Path, PathBuf};
+use vcore::util::Scratch;
+use vcore::{CaseCfg, Ctx, Draw, Outcome, hash_str};
+
+fn inconclusive(msg: &str) -> ! {
+    println!("INCONCLUSIVE property=C07: {msg}");
+    use std::io::Write;
+    let _ = std::io::stdout().flush();
     std::process::exit(2);
+}
+
+fn uri(root: &Path, f: &str) -> String {
+    format!("file://{}/{}", root.display(), f)
+}
+
+/// (range, severity, code, message) of each diagnostic, paths made relative, sorted.
+fn normalise(diags: &[Value], root: &Path) -> Vec<String> {
+    let r = root.display().to_string();
+    let mut v: Vec<String> = diags
+        .iter()
+        .map(|d| {
+            let rg = &d["range"];
+            format!(
+                "{}:{}-{}:{} sev={} code={} {}",
+                rg["start"]["line"],
+                rg["start"]["character"],
+                rg["end"]["line"],
+                rg["end"]["character"],
+                d["severity"],
+                d["code"].as_str().unwrap_or("-"),
+                d["message"].as_str().unwrap_or("").replace(&r, "$ROOT")
+            )
+        })
+        .collect();
+    v.sort();
+    v
+}
+
+fn write_disk(root: &Path, toml: &str, disk: &BTreeMap<String, String>) {
+    vcore::util::write_file(&root.join("Veryl.toml"), toml);
+    std::fs::create_dir_all(root.join("src")).expect("mkdir src");
+    for (f, t) in disk {
+        vcore::util::write_file(&root.join(f), t);
+    }
+}
+
+struct Env {
+    bin: PathBuf,
+    cache: PathBuf,
+}
+
+/// Versions per path: increasing over the whole session, also across close/reopen.
+#[derive(Default)]
+struct Versions(BTreeMap<String, i64>);
+impl Versions {
+    fn next(&mut self, f: &str) -> i64 {
+        let v = self.0.entry(f.to_string()).or_insert(0);
+        *v += 1;
+        *v
+    }
+}
+
+/// What a fresh server publishes for every open document of `w`.
+/// `forced`: extra (path, text) the server is made to hold as if the document
+/// were open — used only to test whether a listed root cause explains a mismatch.
+fn fresh_truth(
+    env: &Env,
+    root: &Path,
+    toml: &str,
+    w: &World,
+    forced: &BTreeMap<String, String>,
+) -> Result<BTreeMap<String, Vec<String>>, LsErr> {
+    let _ = std::fs::remove_dir_all(root);
+    write_disk(root, toml, &w.disk);
+    let mut ls = Ls::spawn(&env.bin, root, &env.cache)?;
+    let mut ver = Versions::default();
+    for (f, t) in &w.open {
+        ls.did_open(&uri(root, f), t, ver.next(f))?;
+    }
+    for (f, t) in forced {
+        if !w.open.contains_key(f) {
+            ls.did_open(&uri(root, f), t, ver.next(f))?;
+        }
+    }
+    let mut out = BTreeMap::new();
+    for (f, t) in &w.open {
+        let u = uri(root, f);
+        ls.did_change(&u, t, ver.next(f))?;
+        out.insert(f.clone(), normalise(&ls.published[&u].diags, root));
+    }
+    Ok(out)
+}
+
+fn play(ls: &mut Ls, root: &Path, w: &mut World, ver: &mut Versions, s: &Step) -> Result<Option<String>, LsErr> {
+    // returns the document whose diagnostics this step makes the server publish
+    let mut touched = None;
+    match s {
+        Step::Open { f } => {
+            let t = w.disk.get(f).cloned().unwrap_or_default();
+            ls.did_open(&uri(root, f), &t, ver.next(f))?;
+            touched = Some(f.clone());
+        }
+        Step::Change { f, text, .. } => {
+            ls.did_change(&uri(root, f), text, ver.next(f))?;
+            touched = Some(f.clone());
+        }
+        Step::Save { f } => {
+            if let Some(t) = w.open.get(f) {
+                vcore::util::write_file(&root.join(f), t);
+            }
+            ls.did_save(&uri(root, f))?;
+        }
+        Step::Close { f } => {
+            ls.did_close(&uri(root, f))?;
+        }
+        Step::RenameFile { from, to } => {
+            let (uo, un) = (uri(root, from), uri(root, to));
+            ls.will_rename(&uo, &un)?;
+            std::fs::rename(root.join(from), root.join(to)).expect("rename on disk");
+            if let Some(t) = w.open.get(from).cloned() {
+                ls.did_close(&uo)?;
+                ls.did_open(&un, &t, ver.next(to))?;
+                touched = Some(to.clone());
+            }
+            ls.did_rename(&uo, &un)?;
+        }
+        Step::Delete { f } => {
+            let u = uri(root, f);
+            ls.will_delete(&u)?;
+            if w.open.contains_key(f) {
+                ls.did_close(&u)?;
+            }
+            std::fs::remove_file(root.join(f)).expect("remove on disk");
+        }
+        Step::Create { f } => {
+            vcore::util::write_file(&root.join(f), "");
+            ls.did_open(&uri(root, f), "", ver.next(f))?;
+            touched = Some(f.clone());
+        }
+    }
+    w.apply(s);
+    Ok(touched)
+}
+
+#[derive(Default)]
+struct Report {
+    diag_seen: bool,
+    compared: u32,
+    stale_views: u32,
+    checks: u32,
+}
+
+enum Verdict {
+    Ok(Report),
+    Mismatch {
+        signature: String,
+        message: String,
+        detail: Value,
+    },
+    ServerGone {
+        long_lived: bool,
+        err: String,
+    },
+}
+
+fn diff_lines(a: &[String], b: &[String]) -> String {
+    let mut s = String::new();
+    for x in a {
+        if !b.contains(x) {
+            s.push_str(&format!("    only long-lived: {x}\n"));
+        }
+    }
+    for x in b {
+        if !a.contains(x) {
+            s.push_str(&format!("    only fresh:      {x}\n"));
+        }
+    }
+    if s.is_empty() {
+        s.push_str("    (same set, different multiplicity)\n");
+    }
+    s
+}
+
+fn execute(env: &Env, scratch: &Scratch, h: &Hist) -> Verdict {
+    let lroot = scratch.join("L");
+    let froot = scratch.join("F");
+    write_disk(&lroot, &h.toml, &h.files);
+    let mut w = World {
+        disk: h.files.clone(),
+        ..Default::default()
+    };
+    let mut ver = Versions::default();
+    let mut rep = Report::default();
+    let gone = |e: LsErr, long_lived: bool| -> Verdict {
+        match e {
+            LsErr::Timeout(m) => inconclusive(&m),
+            LsErr::Exited(m) | LsErr::ThreadDead(m) => Verdict::ServerGone { long_lived, err: m },
+        }
+    };
+    let mut ls = match Ls::spawn(&env.bin, &lroot, &env.cache) {
+        Ok(l) => l,
+        Err(e) => return gone(e, true),
+    };
+    for (i, s) in h.steps.iter().enumerate() {
+        let touched = match play(&mut ls, &lroot, &mut w, &mut ver, s) {
+            Ok(t) => t,
+            Err(e) => {
+                // does a fresh server survive the same buffers?
+                w.apply(s);
+                return match fresh_truth(env, &froot, &h.toml, &w, &BTreeMap::new()) {
+                    Ok(_) => gone(e, true),
+                    Err(LsErr::Timeout(m)) => inconclusive(&m),
+                    Err(_) => Verdict::ServerGone {
+                        long_lived: false,
+                        err: "both servers stop on these buffers".into(),
+                    },
+                };
+            }
+        };
+        if !h.checks.contains(&i) || w.open.is_empty() {
+            continue;
+        }
+        rep.checks += 1;
+        let truth = match fresh_truth(env, &froot, &h.toml, &w, &BTreeMap::new()) {
+            Ok(t) => t,
+            Err(e) => return gone(e, false),
+        };
+        let mut mism: Vec<(String, &'static str, Vec<String>, Vec<String>)> = vec![];
+        // (1) what the step itself made the server publish
+        if let Some(f) = &touched
+            && w.open.contains_key(f)
+            && let Some(p) = ls.published.get(&uri(&lroot, f))
+        {
+            let got = normalise(&p.diags, &lroot);
+            rep.compared += 1;
+            if got != truth[f] {
+                mism.push((f.clone(), "published for this step", got, truth[f].clone()));
+            }
+        }
+        // (2) every open document, analysed again
+        let open: Vec<(String, String)> = w.open.iter().map(|(a, b)| (a.clone(), b.clone())).collect();
+        for (f, t) in &open {
+            let u = uri(&lroot, f);
+            if let Some(p) = ls.published.get(&u)
+                && normalise(&p.diags, &lroot) != truth[f]
+            {
+                // shown to the user until the document is touched again; the
+                // server never re-publishes dependents (not asserted here)
+                rep.stale_views += 1;
+            }
+            let st = Step::Change {
+                f: f.clone(),
+                text: t.clone(),
+                why: "no-op (oracle)".into(),
+            };
+            if let Err(e) = play(&mut ls, &lroot, &mut w, &mut ver, &st) {
+                return gone(e, true);
+            }
+            let got = normalise(&ls.published[&u].diags, &lroot);
+            rep.compared += 1;
+            if got != truth[f] {
+                mism.push((f.clone(), "published when analysed again (no-op didChange)", got, truth[f].clone()));
+            }
+        }
+        if ls.nonempty_publishes > 0 || truth.values().any(|v| !v.is_empty()) {
+            rep.diag_seen = true;
+        }
+        if mism.is_empty() {
+            continue;
+        }
+        // ---- attribute: does a listed root cause explain all of it?
+        let div = w.divergence();
+        let mut signature = "diagnostics-differ-from-fresh-server".to_string();
+        let mut explained = false;
+        if !div.is_empty() {
+            let forced: BTreeMap<String, String> = div.iter().map(|(p, (t, _))| (p.clone(), t.clone())).collect();
+            match fresh_truth(env, &scratch.join("G"), &h.toml, &w, &forced) {
+                Ok(t2) => {
+                    // the long-lived server's answers after re-analysis are the last entries per file
+                    let mut all_same = true;
+                    for (f, _) in &open {
+                        let got = normalise(&ls.published[&uri(&lroot, f)].diags, &lroot);
+                        if got != t2[f] {
+                            all_same = false;
+                        }
+                    }
+                    if all_same {
+                        explained = true;
+                        let mut causes: Vec<&str> = div.values().map(|(_, c)| *c).collect();
+                        causes.sort();
+                        causes.dedup();
+                        signature = causes.join("+");
+                    }
+                }
+                Err(LsErr::Timeout(m)) => inconclusive(&m),
+                Err(_) => {}
+            }
+        }
+        let mut message = format!(
+            "after step {i} ({}) the long-lived server and a fresh server disagree{}:\n",
+            s.kind(),
+            if explained {
+                " — a fresh server made to hold the texts the long-lived one was last told for closed/removed documents agrees with the long-lived one"
+            } else {
+                ""
+            }
+        );
+        for (f, what, got, want) in &mism {
+            message.push_str(&format!("  {f} — {what}:\n{}", diff_lines(got, want)));
+        }
+        if !div.is_empty() {
+            message.push_str("  documents for which the server still holds another text than editor/disk:\n");
+            for (p, (_, c)) in &div {
+                message.push_str(&format!("    {p}: {c}\n"));
+            }
+        }
+        message.push_str("history:\n");
+        message.push_str(&h.pretty());
+        return Verdict::Mismatch {
+            signature,
+            message,
+            detail: json!({
+                "failed_after_step": i,
+                "open_buffers": w.open,
+                "disk": w.disk,
+                "mismatches": mism.iter().map(|(f, what, got, want)| json!({"file": f, "what": what, "long_lived": got, "fresh": want})).collect::<Vec<_>>(),
+                "trace_tail": ls.trace.iter().rev().take(40).rev().collect::<Vec<_>>(),
+            }),
+        };
+    }
+    if ls.nonempty_publishes > 0 {
+        rep.diag_seen = true;
+    }
+    Verdict::Ok(rep)
+}
+
+fn classes_of(h: &Hist) -> Vec<String> {
+    let mut c: Vec<String> = vec![];
+    let mut kinds: BTreeMap<&str, u32> = BTreeMap::new();
+    for s in &h.steps {
+        *kinds.entry(s.kind()).or_insert(0) += 1;
+    }
+    for (k, _) in kinds {
+        c.push(format!("has_{k}"));
+    }
+    let f = &h.flags;
+    for (on, name) in [
+        (f.xfile_change, "xfile_symbol_change"),
+        (f.xfile_rename, "xfile_rename"),
+        (f.xfile_rename_ref_open, "xfile_rename_referenced_from_open_file"),
+        (f.xfile_rename_ref_unopened, "xfile_rename_referenced_from_unopened_file"),
+        (f.syntax_break, "syntax_break"),
+        (f.syntax_break && f.syntax_repair, "syntax_break_and_repair"),
+        (f.close_unsaved, "close_with_unsaved_changes"),
+        (f.reopen, "reopen"),
+        (f.incremental, "incremental_cache_on"),
+        (f.allow_known, "listed_root_causes_reachable"),
+    ] {
+        if on {
+            c.push(name.to_string());
+        }
+    }
+    c
+}
+
+fn outcome_of(ctx: &Ctx, h: &Hist, v: Verdict) -> Outcome {
+    match v {
+        Verdict::Ok(rep) => {
+            let mut classes = classes_of(h);
+            if rep.diag_seen {
+                classes.push("diagnostic_seen".into());
+            }
+            for s in &h.steps {
+                ctx.note_add(&format!("steps_{}", s.kind()), 1);
+            }
+            ctx.note_add("oracle_points", rep.checks as u64);
+            ctx.note_add("documents_compared", rep.compared as u64);
+            ctx.note_add(
+                "observed_not_asserted:open_documents_showing_outdated_diagnostics_until_touched",
+                rep.stale_views as u64,
+            );
+            ctx.note_add("steps_excluded_to_stay_clear_of_listed_root_causes", h.flags.excluded_steps as u64);
+            let text = serde_json::to_string(&h.to_json()).unwrap();
+            Outcome::pass(
+                hash_str(&text),
+                h.flags.xfile_change && rep.diag_seen && rep.compared > 0,
+                classes,
+                h.pretty(),
+            )
+        }
+        Verdict::Mismatch {
+            signature,
+            message,
+            detail,
+        } => Outcome::fail(signature, message, json!({"history": h.to_json(), "detail": detail})),
+        Verdict::ServerGone { long_lived: true, err } => Outcome::fail(
+            "server-stops-after-history",
+            format!(
+                "the long-lived server stopped working during the history while a fresh server handles the same buffers: {err}\nhistory:\n{}",
+                h.pretty()
+            ),
+            json!({"history": h.to_json()}),
+        ),
+        Verdict::ServerGone { long_lived: false, err } => {
+            ctx.note_add("skipped_server_crash_independent_of_history", 1);
+            let _ = err;
+            Outcome::skip("the server stops on these buffers regardless of history (a crash on input: C11's domain)")
+        }
+    }
+}
+
+pub fn run(ctx: &Ctx) {
+    let env = Env {
+        bin: vcore::util::repo_bin("veryl-ls"),
+        cache: PathBuf::from(format!("{}/c07-cache-{}", vcore::util::work_root(), std::process::id())),
+    };
+    if !env.bin.exists() {
+        inconclusive(&format!("{} not built (cargo build --release -p vls)", env.bin.display()));
+    }
+    std::fs::create_dir_all(&env.cache).expect("cache dir");
+    let thorough = !ctx.is_quick();
+
+    // explicit histories: reproducers of listed findings, --replay of a recorded history
+    ctx.run_payloads("history", |p| {
+        let Some(h) = p.get("history").and_then(Hist::from_json) else {
+            return Outcome::skip("payload is not a history");
+        };
+        let scratch = Scratch::new("c07");
+        let v = execute(&env, &scratch, &h);
+        outcome_of(ctx, &h, v)
+    });
+
+    let n = ctx.scale(32, 800);
+    ctx.run(
+        "generated",
+        CaseCfg::cases(n).choices(1500).timeout_s(900).shrink_iters(150),
+        |d: &mut Draw| {
+            let h = generate(d, thorough);
+            if h.checks.is_empty() {
+                return Outcome::skip("history never has an open document");
+            }
+            let scratch = Scratch::new("c07");
+            let v = execute(&env, &scratch, &h);
+            outcome_of(ctx, &h, v)
+        },
+    );
+    let _ = std::fs::remove_dir_all(&env.cache);
+
+    ctx.assume("a fresh server that has opened the same documents, finished background analysis and analysed each document once more (didChange with unchanged text) is the reference; its answer for the unchanged text is taken as 'what a freshly started server publishes once background analysis is complete'");
+    ctx.assume("diagnostics are compared as multisets of (range, severity, code, message); relatedInformation is not compared");
+    ctx.assume("the editor changes files on disk only through save / rename / delete / create, and announces rename and delete (will*/did* file operations); one message is outstanding at a time");
+    ctx.assume("diagnostics of open documents that merely were not re-published after another file changed are counted, not asserted (the server only publishes for the document named in didOpen/didChange)");
+    ctx.finish(
+        "exploration",
+        "generated project (1-2 packages, 1-3 modules over 2-5 files, cross-file widths/types/enum values/functions/imports/instances) + generated history of 5-15 editor steps (24 in thorough); non-trivial = the history changes (renames, removes or retypes) a declaration that another file mentions AND a diagnostic was published at some point AND at least one document was compared with a fresh server; distinct by history content",
+    );
 }
